@@ -105,6 +105,54 @@ ROUND3 = {
              "missed: views were tuples / arrays only; bare lists, bare arrays and lists of booleans added"),
 }
 
+ROUND3.update({
+    "C03c": ("LinkManager._component_removed removes links from the list it iterates over",
+             "an attribute that takes part in two links registered one after the other, then removed from its dataset",
+             "caught"),
+    "C06c": ("SubsetGroup._add_data's 'already has a subset' guard looks for any subset with the group's label on the new dataset",
+             "two live groups with the same label, then a dataset enters the collection",
+             "missed: labels were drawn from six values and rarely collided; two label values and labelled group creation now"),
+    "C08c": ("PolygonalROI.rotate_to remembers the increment instead of the absolute angle",
+             "three or more rotate_to calls on one polygon",
+             "missed: one rotation per case; a chain of up to four absolute rotations now, theta and contained set checked after each"),
+    "C09c": ("RectangularROI.to_polygon returns the unrotated corners for theta % (pi/2) == 0 (same change as seed C08b, proposed independently)",
+             "a non-square rectangle at an odd multiple of pi/2 over one categorical and one numerical axis",
+             "caught"),
+    "C10c": ("SliceSubsetState.to_array looks the pixel alignment up in the wrong direction (inverse axis permutation)",
+             "a slice selection defined on dataset A, a statistic without a view on a dataset B aligned with A through a 3-cycle of pixel axes",
+             "missed: statistics were computed on the selection's own dataset; `aligned_statistics` added (worlds shared with C04's pixel-aligned check)"),
+    "C12c": ("lookup_class_with_patches follows the rename table one hop instead of to a fixed point",
+             "a record whose _type reaches its current name through two entries of the rename table",
+             "missed: the check followed the table itself; the library's resolver must now reach the same object from every old name"),
+    "C13c": ("ApplySubsetState.do pops override_mode from the command's arguments",
+             "a selection command with an explicit non-default edit mode, undone and redone",
+             "caught"),
+    "C15c": ("CoordinateComponent._calculate uses a scalar view item as the pixel position (negative index not resolved)",
+             "a view of scalars and slices with a negative scalar on an axis the world coordinate depends on",
+             "caught"),
+    "C17c": ("Data.find_component_id no longer stops at an ambiguous name in a higher-precedence set",
+             "two main components with the same label plus one lower-precedence component with that label",
+             "caught"),
+    "C01d": ("ElementSubsetState.copy assigns through the `data` property (whose setter does not set the uuid): copies are no longer tied to their dataset",
+             "an element selection bound to a dataset, placed in a composite / edit mode / paste, evaluated on another dataset",
+             "missed: the evaluation on the unrelated dataset was only used to decide whether to test the join; selections tied to their dataset must now raise IncompatibleAttribute there"),
+    "C04d": ("same change as C15c (proposed independently for C04)",
+             "see C15c",
+             "caught"),
+    "C05d": ("LinkManager.update_externally_derivable_components clears the memo caches only while some link exists",
+             "a collection whose datasets have no links of their own, a memoised selection evaluated through the only link, that link removed",
+             "missed: every C05 world had a derived attribute (a link); plain collections and link-focused histories (`link_histories`) added"),
+    "C16d": ("bounds_for_cache stores a ranged bound of a non-contributing dimension as the scalar wildcard",
+             "same cache id: a ranged bound on a dimension that reaches no source dimension, then a scalar bound there, everything else equal",
+             "caught"),
+    "C18d": ("LayerArtistContainer.ignore_callbacks never re-enables change callbacks",
+             "a viewer that was saved and restored, then a subset layer removed on the container side",
+             "caught"),
+    "C20d": ("unique() ravels in memory order ('K') but reshapes the codes in C order",
+             "an n-d categorical array without explicit categories that is not C-ordered",
+             "caught"),
+})
+
 sweep = {}
 if len(sys.argv) > 1 and os.path.exists(sys.argv[1]):
     for line in open(sys.argv[1]):
